@@ -18,7 +18,7 @@ TraceNext ==
   /\ l' = l + 1
   /\ LET e == Rec[l] IN
      IF e.op.name = "reset"
-     THEN members' = {} /\ e.len = 0 /\ last' = [pre |-> <<>>, op |-> e.op, res |-> e.res, post |-> <<>>]
+     THEN e.res.ok /\ members' = {} /\ e.len = 0 /\ last' = [pre |-> <<>>, op |-> e.op, res |-> e.res, post |-> <<>>]
      ELSE LET r == Apply(members, e.op)
           IN /\ r.res = e.res
              /\ Cardinality(r.post) = e.len
